@@ -21,6 +21,8 @@ type runConfig struct {
 	timeout  int
 	workers  int
 	noReplay bool
+	noEvidence bool
+	rerun    string
 	outDir   string
 }
 
@@ -46,6 +48,8 @@ func main() {
 	flag.IntVar(&rc.workers, "workers", 6, "parallel obligations")
 	flag.BoolVar(&rc.noReplay, "no-replay", false, "do not run replays")
 	flag.StringVar(&rc.outDir, "out", "", "scratch/output directory (default <verif>/out)")
+	flag.BoolVar(&rc.noEvidence, "no-evidence", false, "do not write the evidence file (self-test runs on scratch copies)")
+	flag.StringVar(&rc.rerun, "rerun", "", "re-run a previously generated replay test (path of the replay .txt or _test.go file)")
 	flag.Parse()
 	if rc.outDir == "" {
 		rc.outDir = filepath.Join(rc.verif, "out")
